@@ -24,6 +24,7 @@ import NeoFS.Driver.Assemble
 import NeoFS.Driver.IRContainer
 import NeoFS.Driver.IRNetmap
 import NeoFS.Driver.FSTree
+import NeoFS.Driver.IR
 open NeoFS NeoFS.Driver
 
 /-- State of all stateful models; pure models need none. -/
@@ -57,6 +58,7 @@ def stepLine (s : DState) (line : String) : DState × String :=
   | "irc" => (s, ircStep o)
   | "irn" => let (n, out) := irnStep s.irn o; ({ s with irn := n }, out)
   | "fstree" => let (f, out) := fstreeStep s.fstree o; ({ s with fstree := f }, out)
+  | "ir" => (s, irStep o)
   | "put" => (s, putStep o)
   | "validate" => (s, validateStep o)
   | "wcread" => let (w, out) := wcreadStep s.wcr o; ({ s with wcr := w }, out)
